@@ -10,13 +10,13 @@ FILES = ["nexosim/src/executor/task.rs", "nexosim/src/executor/task/runnable.rs"
 
 ALL = ["c13_run_pending_from_scheduled", "c13_run_ready_from_scheduled", "c13_run_last_owner", "c13_run_or_drop_in_winddown",
        "c13_drop_runnable_scheduled", "c13_cancel_while_scheduled", "c13_drop_handles_while_scheduled",
-       "c13_wake_during_poll_repolls_w1", "c13_wake_during_poll_repolls_w3x2", "c13_wake_during_poll_repolls_twice", "c13_cancel_during_poll", "c13_wake_idle_schedules_once", "c13_waker_clone_drop_idle",
+       "c13_wake_during_poll_repolls_w1", "c13_wake_during_poll_repolls_w3x2", "c13_wake_during_poll_repolls_twice", "c13_wake_during_repoll", "c13_cancel_during_poll", "c13_wake_idle_schedules_once", "c13_waker_clone_drop_idle",
        "c13_cancel_idle_then_wake", "c13_completed_release", "c13_wake_by_value_idle", "c13_wake_by_value_only_handle",
        "c13_release_handles_in_winddown"]
 
 SUBSETS = {
     "C13": ALL,
-    "C05": ["c13_run_pending_from_scheduled", "c13_wake_during_poll_repolls_w1", "c13_wake_during_poll_repolls_w3x2", "c13_wake_during_poll_repolls_twice", "c13_cancel_during_poll", "c13_wake_idle_schedules_once",
+    "C05": ["c13_run_pending_from_scheduled", "c13_wake_during_poll_repolls_w1", "c13_wake_during_poll_repolls_w3x2", "c13_wake_during_poll_repolls_twice", "c13_wake_during_repoll", "c13_cancel_during_poll", "c13_wake_idle_schedules_once",
             "c13_cancel_while_scheduled"],
     "C19": ["c13_drop_runnable_scheduled", "c13_cancel_while_scheduled", "c13_cancel_idle_then_wake", "c13_run_or_drop_in_winddown",
             "c13_completed_release", "c13_drop_handles_while_scheduled", "c13_cancel_during_poll", "c13_run_last_owner",
